@@ -81,7 +81,12 @@ class C09(Check):
         steps = rng.randint(15, 60)
         cfg = {'dt': dt, 'steps': steps, 'solver': 'heun' if stratum == 'S-heun' else 'euler',
                'vectorize': rng.random() < 0.5, 'mode': 'step' if stratum == 'S-step' else 'run',
-               'sparseness': rng.choice([None, None, 0.0, 1.0])}
+               'sparseness': rng.choice([None, None, 0.0, 1.0]),
+               # history: the same (or another) delayed model was compiled earlier in this process at another step size
+               # and never cleared; in step mode its function is stepped interleaved with the model under test (the two
+               # must not share ring buffers, delay tables or step counts)
+               'prelude': ({'dt_factor': rng.choice([0.5, 2.0, 4.0]), 'interleave': [rng.random() < 0.5 for _ in range(60)]}
+                           if rng.random() < 0.35 else None)}
         if stratum.startswith('S-conn'):
             cfg['vectorize'] = True
             return {'spec': gen_pop(rng, multi=stratum == 'S-conn-multi'), 'cfg': cfg}
@@ -132,6 +137,26 @@ class C09(Check):
             return res
         rec = Recorder()
         per = 2 if cfg['solver'] == 'heun' else 1
+        pre = None
+        if cfg.get('prelude'):
+            bump('prelude')
+            try:
+                dt_pre = dt * cfg['prelude']['dt_factor']
+                cp = build_pop(spec, dt_pre) if pop else models.build(copy.deepcopy(spec), fname='m_prelude')
+                pf, pargs, _, _ = cp.get_run_func('pre', dt_pre, vectorize=cfg['vectorize'], float_precision='float64',
+                                                  verbose=False, solver='euler', file_name='prelude_fn', **kw)
+                pre = [pf, np.array(pargs[1], copy=True), pargs[2:], dt_pre, 0]
+            except Exception:
+                pre = None
+
+        def step_prelude():
+            if pre is not None:
+                pf, py, prest, pdt, pk = pre
+                try:
+                    pre[1] = py + pdt * np.asarray(pf(pk, py, *prest))
+                    pre[4] = pk + 1
+                except Exception:
+                    pass
         try:
             if cfg['mode'] == 'run':
                 c.run(T, dt, outputs=outputs, solver=cfg['solver'], vectorize=cfg['vectorize'], float_precision='float64',
@@ -143,6 +168,8 @@ class C09(Check):
                 y = np.array(args[1], copy=True)
                 rest = args[2:]          # the SAME argument tuple throughout: ring buffers live in it
                 for k in range(steps):
+                    if pre is not None and cfg['prelude']['interleave'][k % 60]:
+                        step_prelude()
                     r = f(k, y, *rest)
                     y = y + dt * np.asarray(r)
         except Exception as e:
